@@ -3,9 +3,11 @@ package nfs41sim
 import (
 	"fmt"
 	"math/bits"
+	"os"
 	"runtime/debug"
 	"sort"
 	"strings"
+	"sync/atomic"
 	"testing"
 	"testing/synctest"
 	"time"
@@ -26,8 +28,19 @@ type profile struct {
 	parkPct    int
 	devPct     int
 	cachePct   int
+	faultPct   int // chance that a request that can reach a fault site carries a one-shot fault
+	probePct   int // chance that the observer sweeps the lock table of the files touched by a release
 	nontrivial func(l map[string]int) bool
 	excludeDup bool
+
+	// strictInflightFalseRetry: a false retry of a request that is still
+	// being processed must not be answered with that request's reply when
+	// the reply does not even fit the operations of the retry.
+	strictInflightFalseRetry bool
+
+	// labelErrorReturns: record which (operation, error status) returns
+	// were reached (C14: every error return releases all locks).
+	labelErrorReturns bool
 }
 
 // draw returns a (nearly) uniformly distributed integer in [lo, hi].
@@ -392,6 +405,62 @@ func (w *world) buildTemplate(inc *incM, kind string) *tmpl {
 			return w.tLookup(pick(w, "name", fileNames))
 		}
 		return w.tOpenFH(inc, fh, pick(w, "openOwner", openOwners), pick(w, "access", accesses))
+	case "open_previous":
+		// Mostly for a file and open-owner that have open state.
+		deleg := pick(w, "delegateType", []nfsv4.OpenDelegationType4{nfsv4.OPEN_DELEGATE_NONE, nfsv4.OPEN_DELEGATE_NONE, nfsv4.OPEN_DELEGATE_NONE, nfsv4.OPEN_DELEGATE_READ, nfsv4.OPEN_DELEGATE_WRITE})
+		if keys := sortedKeys(inc.opens); len(keys) > 0 && w.pct("previousOfOpenFile", 50) {
+			o := inc.opens[pick(w, "open", keys)]
+			owner := o.owner
+			if w.pct("previousOtherOwner", 25) {
+				owner = pick(w, "openOwner", openOwners)
+			}
+			return w.tOpenPrevious(inc, o.fh, owner, pick(w, "access", accesses), deleg)
+		}
+		fh, ok := w.pickFH(true)
+		if !ok {
+			return w.tLookup(pick(w, "name", fileNames))
+		}
+		return w.tOpenPrevious(inc, fh, pick(w, "openOwner", openOwners), pick(w, "access", accesses), deleg)
+	case "open_deleg":
+		claim := pick(w, "delegClaim", []string{"delegate_cur", "delegate_prev", "deleg_cur_fh", "deleg_prev_fh"})
+		fh, ok := w.pickFH(true)
+		if !ok {
+			claim = "delegate_cur"
+		}
+		sid := anonSID
+		if st := statesOf(inc); len(st) > 0 && w.pct("delegWithLiveStateID", 60) {
+			sid = pick(w, "state", st).sid
+		}
+		how := pick(w, "how", []string{"nocreate", "nocreate", "unchecked", "guarded"})
+		return w.tOpenDelegClaim(inc, claim, fh, pick(w, "name", fileNames), pick(w, "openOwner", openOwners), pick(w, "access", accesses), how, sid)
+	case "open_deny":
+		deny := pick(w, "shareDeny", []uint32{nfsv4.OPEN4_SHARE_DENY_READ, nfsv4.OPEN4_SHARE_DENY_WRITE, nfsv4.OPEN4_SHARE_DENY_BOTH, nfsv4.OPEN4_SHARE_DENY_BOTH, 4, 0x80000000})
+		var fh []byte
+		if w.pct("denyByFH", 40) {
+			fh, _ = w.pickFH(true)
+		}
+		how := pick(w, "how", []string{"nocreate", "nocreate", "unchecked", "unchecked_trunc", "guarded"})
+		return w.tOpenDeny(inc, fh, pick(w, "name", fileNames), pick(w, "openOwner", openOwners), pick(w, "access", accesses), how, deny)
+	case "rename":
+		oldName := pick(w, "name", fileNames)
+		newName := pick(w, "newName", fileNames)
+		// Prefer renaming over a file that is open.
+		var openNames []string
+		for _, n := range fileNames {
+			if l := w.lookupTruth(n); l != nil && w.leafHasLiveOpen(l) {
+				openNames = append(openNames, n)
+			}
+		}
+		if len(openNames) > 0 && w.pct("renameOverOpenFile", 60) {
+			newName = pick(w, "newName", openNames)
+		}
+		return w.tRename(oldName, newName, w.pct("renameViaPutFH", 50))
+	case "link":
+		fh, ok := w.pickFH(true)
+		if !ok {
+			return w.tLookup(pick(w, "name", fileNames))
+		}
+		return w.tLink(fh, pick(w, "newName", fileNames))
 	case "close":
 		sid, fh, how, ok := w.pickSID(inc, "open")
 		if !ok {
@@ -502,7 +571,7 @@ func (w *world) buildTemplate(inc *incM, kind string) *tmpl {
 	panic("nfs41sim: unknown template " + kind)
 }
 
-var templateKinds = []string{"open", "open", "open_then", "open_fh", "close", "downgrade", "lock_new", "lock_existing", "lockt", "locku", "free_stateid", "test_stateid", "read", "write", "setattr", "remove", "lookup", "probe", "noop", "reclaim_complete"}
+var templateKinds = []string{"open", "open", "open_then", "open_fh", "open_previous", "open_deleg", "open_deny", "rename", "link", "close", "downgrade", "lock_new", "lock_existing", "lockt", "locku", "free_stateid", "test_stateid", "read", "write", "setattr", "remove", "lookup", "probe", "noop", "reclaim_complete"}
 
 // ---------------------------------------------------------------- actions
 
@@ -519,6 +588,10 @@ func (w *world) seqAction(kind string, forcePark bool) {
 	if len(t.parkOK) > 0 && (forcePark || w.pct("park", w.p.parkPct)) {
 		plan[pick(w, "parkAt", t.parkOK)] = true
 	}
+	if len(t.faultOK) > 0 && w.p.faultPct > 0 && w.pct("fault", w.p.faultPct) {
+		site := pick(w, "faultSite", t.faultOK)
+		plan["fault:"+site+":"+pick(w, "faultStatus", faultKinds[site])] = true
+	}
 	c := w.sendSeq(sess, slot, sess.slots[slot].lastSeq+1, "new", t, w.pct("cachethis", w.p.cachePct), plan, nil)
 	w.learnSessionFate(c)
 }
@@ -533,7 +606,9 @@ func (w *world) learnSessionFate(c *call) {
 // leading PUTFH is dropped, so the first operation that needs the current
 // file handle must fail with NFS4ERR_NOFILEHANDLE and nothing may change.
 func (w *world) withoutFileHandle(t *tmpl) *tmpl {
-	if len(t.ops) < 2 {
+	if len(t.ops) < 2 || t.noEffect {
+		// (Requests that are refused because of their arguments do not
+		// get as far as looking at the current file handle.)
 		return t
 	}
 	if _, ok := t.ops[0].(*nfsv4.NfsArgop4_OP_PUTFH); !ok {
@@ -566,6 +641,11 @@ func (w *world) slotsWhere(f func(s *sessM, sl *slotM) bool) []slotRef {
 }
 
 func (w *world) doStep(op string) {
+	w.doStepInner(op)
+	w.maybeProbeLocks()
+}
+
+func (w *world) doStepInner(op string) {
 	switch op {
 	case "bootstrap":
 		w.bootstrap(pick(w, "client", w.clients))
@@ -648,7 +728,11 @@ func (w *world) doStep(op string) {
 		b := r.s.slots[r.slot].busy
 		w.sendSeq(r.s, r.slot, b.seq, "dup", b.t, b.cache, nil, b)
 	case "false_retry":
-		inflight := !w.p.excludeDup && w.pct("falseRetryInflight", 25)
+		inflightPct := 25
+		if w.p.strictInflightFalseRetry {
+			inflightPct = 70
+		}
+		inflight := !w.p.excludeDup && w.pct("falseRetryInflight", inflightPct)
 		cands := w.slotsWhere(func(s *sessM, sl *slotM) bool {
 			if inflight {
 				return sl.busy != nil && s.live()
@@ -791,6 +875,8 @@ func (w *world) finalDrain() {
 			w.failf("harness: request #%d %q completed but was not evaluated", c.id, c.desc)
 		}
 	}
+	// The lock table of every file against the per-byte model, once more.
+	w.probeAllLocks("final")
 	w.doAdvance(leaseTime + time.Second)
 	// Any call will do; use a SEQUENCE on a session that cannot exist.
 	bogus := &sessM{inc: &incM{client: &clientSim{idx: 99}, gone: true}, destroyed: true}
@@ -880,6 +966,21 @@ func runInBubble(t *testing.T, mk func() *world, body func(w *world)) (*caseResu
 	res := &caseResult{}
 	var failure string
 	var rapidPanic any
+	// A request that blocks on a mutex (a lock that an earlier call
+	// leaked, or a lock-order deadlock) is not "durably blocked", so
+	// synctest.Wait never returns and the case hangs. Time inside the
+	// bubble is fake; this timer is created outside of it and runs on real
+	// time. A case normally takes milliseconds.
+	var hung atomic.Pointer[world]
+	watchdog := time.AfterFunc(45*time.Second, func() {
+		script := "(world not created)"
+		if w := hung.Load(); w != nil {
+			script = formatScript(w.script)
+		}
+		fmt.Printf("VERIF-VIOLATION property=C14: the case did not finish within 45 s of real time: a call is blocked on a mutex that is never released (leaked lock or deadlock inside the NFSv4.1 program, the opened files pool, the handle allocator or the directory)\nscript so far:\n%s", script)
+		os.Exit(1)
+	})
+	defer watchdog.Stop()
 	func() {
 		defer func() {
 			// A goroutine that is blocked forever makes the bubble panic
@@ -920,6 +1021,7 @@ func runInBubble(t *testing.T, mk func() *world, body func(w *world)) (*caseResu
 				}
 			}()
 			w = mk()
+			hung.Store(w)
 			body(w)
 		})
 	}()
